@@ -7,7 +7,7 @@ import layoutlib as L
 import vlib
 
 MANIFEST = {
-    "text": "For each program the real VM's retired states (every storage key tree of every path) and the real analysis' layout are compared INSIDE Coq: a program that executed no SLOAD/SSTORE must yield an empty layout, and every reported slot index must be a constant occurring in the key expression of an executed storage access, the preimage of such a constant in the keccak(small slot) table, or a documented proxy-slot constant. Stage theorems over the model of the six slot passes (tied to the real passes on every run): without a storage access the guarded passes are the identity, lifted nodes appear only at or below storage accesses (C05_lifts_only_under_access), no access => no slot node (C05_no_storage_no_slot), and outside the K3 class only in key sub-trees (C05_lifts_only_in_keys_outside_K3; K3_refuted, K3_hashed_constant) -- for ALL trees. Known finding K3: the mapping/array patterns are also applied to VALUE sub-trees, so a hash-shaped stored or loaded value yields a slot; classified by a Coq predicate. END TO END: the stage models are composed into one executable model of the whole analysis (Pipeline.v: disassembly, VM, all_values, nine passes, registration, rules, unification under the hooked iteration orders, abi_type_for, layout), tied to the real `analyze` by a whole-program differential run in three order modes (stage of first disagreement reported), and pipeline_storage_free_empty proves for EVERY program, configuration, keccak function, slot table and order mode: if the instruction stream has no SLOAD and no SSTORE the only layout that can be returned is [] (via a VM invariant through every micro-operation: no retired state holds a storage-access constructor). ATTRIBUTION END TO END (props/C05_pipeline.v, proofs/PipelineAttribution.v): pipeline_rows_attributed -- for every byte string, configuration, keccak function, slot table, order mode and fuel, a row with slot index w is in the layout the composed model returns only if one of the lifted values (nine passes applied to the values collected from the VM's retired states) contains a StorageSlot node whose key is the literal w: registration adds exactly one typed node per subterm (register_only_subterms), the rules and merge allocate synthetic Value nodes only, every row comes out of one abi_type_for call on a constant-slot value (layout_rows_come_from_abi); which StorageSlot nodes the passes create is the stage half (C05_lifts_only_under_access, C05_lifts_only_in_keys_outside_K3, K3_refuted).",
+    "text": "For each program the real VM's retired states (every storage key tree of every path) and the real analysis' layout are compared INSIDE Coq: a program that executed no SLOAD/SSTORE must yield an empty layout, and every reported slot index must be a constant occurring in the key expression of an executed storage access, the preimage of such a constant in the keccak(small slot) table, or a documented proxy-slot constant. Stage theorems over the model of the six slot passes (tied to the real passes on every run): without a storage access the guarded passes are the identity, lifted nodes appear only at or below storage accesses (C05_lifts_only_under_access), no access => no slot node (C05_no_storage_no_slot), and outside the K3 class only in key sub-trees (C05_lifts_only_in_keys_outside_K3; K3_refuted, K3_hashed_constant) -- for ALL trees. Known finding K3: the mapping/array patterns are also applied to VALUE sub-trees, so a hash-shaped stored or loaded value yields a slot; classified by a Coq predicate. END TO END: the stage models are composed into one executable model of the whole analysis (Pipeline.v: disassembly, VM, all_values, nine passes, registration, rules, unification under the hooked iteration orders, abi_type_for, layout), tied to the real `analyze` by a whole-program differential run in three order modes (stage of first disagreement reported), and pipeline_storage_free_empty proves for EVERY program, configuration, keccak function, slot table and order mode: if the instruction stream has no SLOAD and no SSTORE the only layout that can be returned is [] (via a VM invariant through every micro-operation: no retired state holds a storage-access constructor). ATTRIBUTION END TO END (props/C05_pipeline.v, proofs/PipelineAttribution.v): pipeline_rows_attributed -- for every byte string, configuration, keccak function, slot table, order mode and fuel, a row with slot index w is in the layout the composed model returns only if one of the lifted values (nine passes applied to the values collected from the VM's retired states) contains a StorageSlot node whose key is the literal w: registration adds exactly one typed node per subterm (register_only_subterms), the rules and merge allocate synthetic Value nodes only, every row comes out of one abi_type_for call on a constant-slot value (layout_rows_come_from_abi); the attribution is tight: pipeline_slot_nodes_reported -- every StorageSlot node with a literal key in a lifted value IS reported, so the set of reported indices is exactly the set of such keys; which StorageSlot nodes the passes create is the stage half (C05_lifts_only_under_access, C05_lifts_only_in_keys_outside_K3, K3_refuted).",
     "note": "Trusted: Coq kernel for the predicate; keccak table computed with the sha3 crate in the harness; harness; hook H2. The "
             "chain from layout rows back to lifted StorageSlot nodes through registration/unification is searched, not proved (partial).",
     "technique": "attribution predicate evaluated inside Coq on the real VM states and the real layout; Coq stage lemmas for the lifting "
